@@ -46,9 +46,12 @@ OPEN_STATEMENTS = [
 RULE = (
     "state-machine cases = (plain|spec host) x (Alias|DeprecatedAlias|AttrProxy) x passthrough x transform(none, total, "
     "raising AttributeError) x fallback(none, int, list) x type-checked annotation x path shape (plain, dotted, item, "
-    "attr.attr[item], item.attr with dotted key) x initial tree (target present / leaf missing / prefix missing) x op "
+    "attr.attr[item], item.attr with dotted key, item with escaped quote, item with empty key) x initial tree (target present / leaf missing / prefix missing) x op "
     "sequence: every single op followed by a read from every configuration, ALL sequences of the core alphabet up to the "
     "tier's length for a seeded sample of configurations, seeded random sequences for every configuration; "
+    "every value position (alias writes by assignment / with_<alias> / constructor keyword, target writes, initial "
+    "target value, fallbacks, prefix overwrites, item keys) draws from pools holding falsy members of each type "
+    "(0, '', None, []) next to truthy ones, in the single-op, exhaustive-sequence and random parts alike; "
     "non-trivial = the op changed the state, raised, produced a fallback copy or a warning; distinct = distinct "
     "(configuration, pre-state, op). parser cases = all strings over a 9-symbol alphabet up to the tier's length, "
     "rendered random segment lists (both quote styles, escapes, glued attributes) and 1-2 character mutations of them."
@@ -98,6 +101,8 @@ SHAPES = {
     },
     # an item key that needs an escape in the path string
     "E": {"path": 'd["q\\"q"]', "segs": [A("d"), I('q"q')], "prefix": [("d", [A("d")], "D")]},
+    # a falsy item key
+    "K": {"path": 'd[""]', "segs": [A("d"), I("")], "prefix": [("d", [A("d")], "D")]},
 }
 INITS = ("present", "leaf", "noprefix")
 
@@ -118,7 +123,7 @@ def puts_of(case):
     for path, segs, kind in sh["prefix"]:
         out.append((path, segs, obj_token(case) if kind == "O" else "D"))
     if case["init"] == "present":
-        out.append((sh["path"], sh["segs"], "i1"))
+        out.append((sh["path"], sh["segs"], case.get("pv", "i1")))
     return out
 
 
@@ -181,7 +186,8 @@ def py_val(tok, case):
     if tok[0] == "i":
         return int(tok[1:])
     if tok[0] == "s":
-        return tok
+        # the model's `str n` = the n-th scalar that is not an int: s0 = "" and s1 = None are the falsy ones
+        return {"s0": "", "s1": None}.get(tok, tok)
     if tok[0] == "L":
         return [int(x) for x in tok[1:].split(",") if x]
     if tok == "D":
@@ -278,8 +284,10 @@ def show_val(v):
         return f"bool{v}"
     if isinstance(v, int):
         return f"i{v}"
+    if v is None:
+        return "s1"
     if isinstance(v, str):
-        return v
+        return v if v else "s0"
     if isinstance(v, list):
         return "L[" + ",".join(str(x) for x in v) + "]"
     if isinstance(v, dict):
@@ -340,7 +348,7 @@ class Run:
         """construct with the alias as keyword (spec classes, plain path, target present)"""
 
         def fn():
-            self.cur = self.cls(x=1, al=py_val(tok, self.case))
+            self.cur = self.cls(x=py_val(self.case.get("pv", "i1"), self.case), al=py_val(tok, self.case))
             return "ok"
 
         return self.call(fn)
@@ -396,7 +404,7 @@ class Run:
                 self.new_cur(h.with_x(v))
             elif sh == "D":
                 self.new_cur(h.update_sub(x=v))
-            elif sh in ("I", "E"):
+            elif sh in ("I", "E", "K"):
                 self.new_cur(h.with_d_item(self.segs[-1][1], v))
             else:
                 raise RuntimeError("cwt not defined for this shape")
@@ -404,7 +412,7 @@ class Run:
             sh = case["shape"]
             if sh == "P":
                 self.new_cur(h.reset_x())
-            elif sh in ("I", "E"):
+            elif sh in ("I", "E", "K"):
                 self.new_cur(h.without_d_item(self.segs[-1][1]))
             else:
                 raise RuntimeError("cdt not defined for this shape")
@@ -590,7 +598,7 @@ def oracle(case):
         try:
             with warnings.catch_warnings():
                 warnings.simplefilter("ignore")
-                run.cur = run.cls(x=1, al=v)
+                run.cur = run.cls(x=py_val(case.get("pv", "i1"), case), al=v)
             if bad_type(v):
                 viol.append(f"constructor accepted ill-typed alias value {v!r}")
             elif passthrough:
@@ -598,7 +606,7 @@ def oracle(case):
                     viol.append("constructor: passthrough alias keyword did not reach the target")
             else:
                 ref_ov = v
-                if observe_target(run.cur, segs) != 1:
+                if observe_target(run.cur, segs) != py_val(case.get("pv", "i1"), case):
                     viol.append("constructor: local alias keyword modified the target")
         except TypeError:
             if not bad_type(v) and not (passthrough and not isinstance(v, int)):
@@ -705,27 +713,36 @@ def oracle(case):
 
 CORE_OPS_PLAIN = [["ra"], ["wa", None], ["da"], ["rt"], ["wt", None], ["dt"], ["cp"]]
 CORE_OPS_SPEC = CORE_OPS_PLAIN + [["cwa", None], ["cwt", None]]
-VALUES = ["i2", "i3", "i-4", "s0"]
-FALLBACKS = ["-", "i0", "L7,8"]  # a falsy scalar and a mutable value
-MORE_FALLBACKS = ["-", "i0", "i5", "L7,8", "L"]
+# Every value position has falsy members of each type next to truthy ones: 0, "" (s0), None (s1), [] (L).
+VALUES = ["i2", "i0", "i-4", "s0", "s1", "s2", "L"]
+INT_VALUES = ["i2", "i0", "i-4"]
+FALLBACKS = ["-", "i0", "L7,8", "L"]  # falsy scalar, truthy mutable, falsy mutable
+MORE_FALLBACKS = ["-", "i0", "i5", "s0", "s1", "L7,8", "L"]
+
+
+def values_for(case):
+    """the value pool of a case: the empty list is left out when the fallback is the empty list (a read could not
+    tell the two apart by value)"""
+    return [v for v in VALUES if not (v == "L" and case["fb"] == "L")]
 
 
 def cow_target_ok(shape):
-    return shape in ("P", "D", "I", "E")
+    return shape in ("P", "D", "I", "E", "K")
 
 
 def all_ops(case):
     ops = [["ra"], ["da"], ["rt"], ["dt"], ["cp"]]
-    ops += [["wa", v] for v in VALUES] + [["wt", v] for v in VALUES]
+    vals = values_for(case)
+    ops += [["wa", v] for v in vals] + [["wt", v] for v in vals]
     if case["shape"] != "P":
         ops += [["dp"]]
         if case["host"] == "plain":
-            ops += [["sp", "i9"], ["sp", "s1"]]
+            ops += [["sp", "i9"], ["sp", "i0"], ["sp", "s1"], ["sp", "s0"]]
     if case["host"] == "spec":
-        ops += [["cwa", v] for v in VALUES] + [["cra"]]
+        ops += [["cwa", v] for v in vals] + [["cra"]]
         if cow_target_ok(case["shape"]) and case["init"] != "noprefix":
-            ops += [["cwt", v] for v in VALUES[:3:2] + ["s0"]]
-            if case["shape"] in ("P", "I", "E"):
+            ops += [["cwt", v] for v in vals]
+            if case["shape"] in ("P", "I", "E", "K"):
                 ops += [["cdt"]]
     return ops
 
@@ -761,12 +778,31 @@ def configs(kinds=("alias", "dep"), trs=(0, 1), chks=(0, 1)):
                                     }
 
 
-def fill_values(ops):
-    """give each write of a sequence its own value so that every write is distinguishable"""
-    out = []
+FALSY_SCALARS = ["i0", "s0", "s1"]  # 0, "", None
+
+
+def int_only_leaf(case):
+    """the target is the type-checked attribute `x: int` of a spec-class instance"""
+    return case["host"] == "spec" and SHAPES[case["shape"]]["segs"][-1] == A("x")
+
+
+def fill_values(ops, phase=0, case=None):
+    """Give each write of a sequence its own value so that every write is distinguishable, and make every second
+    write (which ones: `phase`) a FALSY value of a type the position accepts: 0 everywhere; "" and None too where
+    nothing type-checks the position."""
+    out, k = [], 0
     for n, op in enumerate(ops):
         if len(op) > 1 and op[1] is None:
-            out.append([op[0], f"i{10 * (n + 1) + {'wa': 1, 'wt': 2, 'cwa': 3, 'cwt': 4}[op[0]]}"])
+            name = op[0]
+            if (k + phase) % 2 == 0:
+                alias_side = name in ("wa", "cwa")
+                int_only = case is None or (bool(case["chk"]) if alias_side else int_only_leaf(case)) \
+                    or (alias_side and bool(case["pass"]) and int_only_leaf(case))
+                v = "i0" if int_only else FALSY_SCALARS[(phase // 2 + k) % 3]
+            else:
+                v = f"i{10 * (n + 1) + {'wa': 1, 'wt': 2, 'cwa': 3, 'cwt': 4}[name]}"
+            out.append([name, v])
+            k += 1
         else:
             out.append(list(op))
     return out
@@ -789,6 +825,7 @@ def random_config(rng):
         "chk": rng.choice([0, 1]) if host == "spec" else 0,
         "shape": shape,
         "init": rng.choice(INITS[:2] if shape == "P" else INITS),
+        "pv": rng.choice(["i1", "i0"]),  # initial value of a present target: truthy or falsy
     }
 
 
@@ -933,7 +970,7 @@ def gen_cases(tier, rng):
             c["ops"] = random_ops(c, rng, rng.randint(1, 6))
             c["origin"] = "search"
             if c["host"] == "spec" and c["shape"] == "P" and c["init"] == "present" and rng.random() < 0.2:
-                c["ctor"] = rng.choice(VALUES)
+                c["ctor"] = rng.choice(values_for(c))
             yield c
         return
 
@@ -946,11 +983,11 @@ def gen_cases(tier, rng):
         cfgs = rng.sample(cfgs, len(cfgs) // 2)
     for c in cfgs:
         for op in all_ops(c):
-            yield {**c, "ops": [list(op), ["ra"], ["rt"]], "origin": "single-op"}
+            yield {**c, "pv": rng.choice(["i1", "i0"]), "ops": [list(op), ["ra"], ["rt"]], "origin": "single-op"}
     # 2. constructor with the alias as keyword
     for c in configs():
         if c["host"] == "spec" and c["shape"] == "P" and c["init"] == "present":
-            for v in VALUES:
+            for v in values_for(c):
                 yield {**c, "ctor": v, "ops": [["ra"], ["rt"], ["da"], ["ra"]], "origin": "ctor"}
     # 3. ALL sequences of the core alphabet of length L (their prefixes are compared line by line, so this covers
     #    every length <= L) for a seeded sample of configurations; the samples cycle through shapes and hosts
@@ -960,15 +997,16 @@ def gen_cases(tier, rng):
     for L, nplain, nspec in plan:
         off = rng.randrange(len(shapes))
         picks = []
-        for host, count in (("plain", nplain), ("spec", nspec)):
+        for hi, (host, count) in enumerate((("plain", nplain), ("spec", nspec))):
             for i in range(count):
                 want_shape = shapes[(off + i) % len(shapes)]
-                cands = [c for c in pool if c["shape"] == want_shape and c["host"] == host]
-                picks.append(rng.choice(cands))
+                want_pass = (i // len(shapes) + i + hi) % 2  # both kinds of alias in every group of samples
+                cands = [c for c in pool if c["shape"] == want_shape and c["host"] == host and c["pass"] == want_pass]
+                picks.append({**rng.choice(cands), "pv": rng.choice(["i1", "i0"])})
         for c in picks:
             core = CORE_OPS_SPEC if c["host"] == "spec" else CORE_OPS_PLAIN
-            for seq in itertools.product(core, repeat=L):
-                ops = sanitize(c, fill_values(seq))
+            for nseq, seq in enumerate(itertools.product(core, repeat=L)):
+                ops = sanitize(c, fill_values(seq, nseq, c))
                 if len(ops) == L:
                     yield {**c, "ops": ops, "origin": f"all-seq-{L}"}
     # 4. seeded random sequences (full alphabet, all value kinds) for every configuration
@@ -976,7 +1014,7 @@ def gen_cases(tier, rng):
     maxlen = 5 if quick else 6
     for c in configs(kinds=("alias", "dep", "proxy"), trs=(0, 1, 2)):
         for _ in range(nper):
-            yield {**c, "ops": random_ops(c, rng, rng.randint(3, maxlen)), "origin": "random"}
+            yield {**c, "pv": rng.choice(["i1", "i0"]), "ops": random_ops(c, rng, rng.randint(3, maxlen)), "origin": "random"}
 
 
 def shrink(case, at=None):
